@@ -551,6 +551,8 @@ func TestBIP39(t *testing.T) {
 type wifCase struct {
 	Key string `json:"key"` // hex, 32 bytes, 1 <= key < n
 	Ver byte   `json:"ver"`
+	// Uncompressed: the 37-byte form without the compression flag (keys of old wallets, wallet -u)
+	Uncompressed bool `json:"uncompressed,omitempty"`
 }
 
 func checkWIF(c wifCase) error {
@@ -563,12 +565,15 @@ func checkWIF(c wifCase) error {
 		return nil
 	}
 	rpub := ec.SerializeCompressed(ec.BaseMul(d))
-	if got := btc.PublicFromPrivate(key, true); !bytes.Equal(got, rpub) {
+	if c.Uncompressed {
+		rpub = ec.SerializeUncompressed(ec.BaseMul(d))
+	}
+	if got := btc.PublicFromPrivate(key, !c.Uncompressed); !bytes.Equal(got, rpub) {
 		return fmt.Errorf("PublicFromPrivate(%x) = %x, reference %x", key, got, rpub)
 	}
-	pa := btc.NewPrivateAddr(append([]byte{}, key...), c.Ver, true)
+	pa := btc.NewPrivateAddr(append([]byte{}, key...), c.Ver, !c.Uncompressed)
 	s := pa.String()
-	if want := addr.WIFEncode(c.Ver, key, true); s != want {
+	if want := addr.WIFEncode(c.Ver, key, !c.Uncompressed); s != want {
 		return fmt.Errorf("WIF of %x/%02x is %s, reference %s", key, c.Ver, s, want)
 	}
 	wantAddr := addr.Base58CheckEncode(append([]byte{c.Ver - 0x80}, hd.Hash160(rpub)...))
@@ -605,13 +610,19 @@ func TestWIFRoundTrip(t *testing.T) {
 		case 1: // just below n
 			d := new(big.Int).Sub(ec.N, big.NewInt(int64(rapid.IntRange(1, 1000).Draw(t, "below"))))
 			key = ec.Bytes32(d)
+		case 2: // last key byte 0x00 / 0x01 / 0xff: where a compression flag would sit in the longer form
+			key[31] = rapid.SampledFrom([]byte{0, 1, 1, 0xff}).Draw(t, "last")
 		}
 		if d := new(big.Int).SetBytes(key); d.Sign() == 0 || d.Cmp(ec.N) >= 0 {
 			key[0] = 1
 		}
 		c := wifCase{Key: hex.EncodeToString(key), Ver: rapid.SampledFrom([]byte{0x80, 0xef, 0xb0}).Draw(t, "ver")}
+		c.Uncompressed = rapid.IntRange(0, 2).Draw(t, "uncompressed") == 0
 		r.Case(c)
-		r.Class([]string{"leading_zeros", "near_n", "random", "random", "random", "random"}[kind])
+		r.Class([]string{"leading_zeros", "near_n", "last_byte_flaglike", "random", "random", "random"}[kind])
+		if c.Uncompressed {
+			r.Class("uncompressed_form")
+		}
 		r.NonTrivial()
 		if err := checkWIF(c); err != nil {
 			r.Failf("%v", err)
